@@ -1,3 +1,6 @@
-//! Sequential model of the tokio APIs used by penguin-mux (probe version).
-pub mod sync;
+//! Sequential contract model of the tokio APIs used by penguin-mux and penguin-socks.
+//! See DESIGN.md §3.2.  Every item keeps tokio's name, signature and documented behaviour;
+//! there is no runtime, no threads and no real time.
 pub mod io;
+pub mod sync;
+pub mod time;
